@@ -134,6 +134,12 @@ Proof. exact GpoolProofs.nothing_starts_after_release. Qed.
 Theorem C19_release_after_every_started_job_finished : forall W Q s, reachable W Q s -> (rp s = RDone \/ rp s = RAcked) ->
   Permutation (started s) (fin s) /\ (forall j, In j (started s) -> In j (fin s)) /\ (forall j, In j (jobq s) -> ~ In j (started s)).
 Proof. exact GpoolFifo.release_after_every_started_job_finished. Qed.
+(* every worker in the idle queue is idle, and the hand-over to the worker the dispatcher has picked is enabled at once: a job is never
+   handed to a worker that still runs another job (it cannot wait behind a long job while other workers are idle) *)
+Theorem C19_registered_workers_are_idle : forall W Q s, reachable W Q s ->
+  (forall w, In w (wq s) -> nth_error (wk s) w = Some WWait) /\
+  (forall j w, dp s = DHand j w -> nth_error (wk s) w = Some WWait /\ exists s', step W Q s Hand = Some s').
+Proof. exact GpoolFifo.registered_workers_are_idle. Qed.
 (* the buffered WorkerQueue never exceeds its capacity W: a worker's registration `w.WorkerQueue <- w` never blocks *)
 Theorem C19_worker_registration_never_blocks : forall W Q s, reachable W Q s ->
   length (wq s) <= W /\ (forall w s', step W Q s (WorkerReg w) = Some s' -> length (wq s) < W).
@@ -273,3 +279,4 @@ Print Assumptions C19_release_after_every_started_job_finished.
 Print Assumptions C19_worker_registration_never_blocks.
 Print Assumptions C19_listen_builds_the_pool_once.
 Print Assumptions C19_server_traces_accepted.
+Print Assumptions C19_registered_workers_are_idle.
